@@ -19,6 +19,26 @@ HOOKS = {
 }
 
 PROPS = {
+    "C15": {
+        "bin": "c15",
+        "explanation": "Relational checking in mode R: inside one execution two (three) real interpolators are built from related symbolic inputs - data scaled by a symbolic factor, sum of two data sets, axis and "
+                       "queries shifted or scaled (derivative boundary values converted) - and queried in one batch at concrete abscissae (4 per spline piece, 2 per linear bracket, 2x2 per bilinear cell, plus points beyond "
+                       "both ends). z3 proves each relation for ALL data values, boundary values and the symbolic scale factor; agreement at 4 points per cubic piece extends to every query by the identity theorem (not solver-discharged).",
+        "trusted_base": R_TRUST,
+        "technique": "symbolic execution of 2-3 related interpolators in one execution + z3 (QF_NRA with symbolic scale factor) at concrete query abscissae; exact-rational replay via variable bindings",
+        "level_text": "Bounded symbolic model checking of homogeneity, additivity, shift and scale invariance for all data / boundary values / data scale factors, all strategies and the boundary configurations of C03; axis shift and scale symbolic for Linear, from a stated constant list otherwise.",
+        "level_note": "Trusted: engine S, z3. Real-number semantics. The bit-for-bit clause for exactly representable changes is NOT decided (stated outside). Concrete query abscissae + identity theorem instead of a symbolic query (symbolic-query relational obligations come back unknown, measured).",
+    },
+    "C16": {
+        "bin": "c16",
+        "explanation": "Mode R: the data handed to the real builder are TERMS p(x_i) of a polynomial with symbolic coefficients (per lane), boundary derivative values are p'(x_end) / p''(x_end); for a symbolic query in every "
+                       "interval and on both sides of the range z3 proves out = p(q) as a polynomial identity in the coefficients and q. Linear + affine (symbolic axis), Bilinear + a+bx+cy+dxy, NotAKnot + cubic (n>=4) / quadratic (n=3), "
+                       "Natural + affine, Clamped + constant, derivative / not-a-knot Mixed pairs + cubic.",
+        "trusted_base": R_TRUST,
+        "technique": "symbolic execution with polynomial-valued data terms + z3 (QF_NRA polynomial identities in coefficients and query); exact-rational replay via variable bindings",
+        "level_text": "Bounded symbolic model checking: reproduction is decided for every coefficient vector and every real query (in range and extrapolated) on the concrete axis family (n <= 6 quick / 10 thorough), for every boundary pair whose conditions the polynomial satisfies, lanes holding different polynomials.",
+        "level_note": "Trusted: engine S, z3. Real-number semantics; concrete axes for spline and bilinear; n bounded. Detects the (repaired) right-NotAKnot defect when the fix is reverted.",
+    },
     "C07": {
         "bin": "c07",
         "explanation": "Periodic boundary with extrapolation, mode R on the concrete axis family with symbolic periodic data: (1) the specification's wrap w(q) = x0 + rem_euclid(q - x0, P) maps x + kP to x for an "
